@@ -123,6 +123,20 @@ def random_histories(rng, count):
             f = {'loose': 6.0, 'binding': rng.uniform(1.05, 2.0),
                  'tight': rng.uniform(0.5, 1.0)}[mode]
             spec['dpl'] = float(dp * f)
+        # a limit above the largest tabulated pressure drop together with a
+        # small temperature rise: some groups ask for more flow than the
+        # response table covers
+        if k % 7 == 3:
+            import numpy as np
+            mode = 'above'
+            spec['t_out'] = orifice.T_IN + rng.uniform(22.0, 34.0)
+            p = np.array(pw, float) * orifice.PSCALE * 50.0
+            sel0 = [p[i] for i in range(n) if types[i] == 0] or list(p)
+            m_max = float(np.mean(sel0)) / 1e6 / 0.05
+            dp_max = 820.0 * m_max ** 1.8 / 1e6
+            spec['dpl'] = float(dp_max * rng.uniform(1.05, 1.4))
+            spec['rounds'] = 1
+            spec['regroup'] = False
         spec['mode'] = mode
         out.append((f'h{k}-{kind}-n{n}-g{ng}-{mode}', spec))
     return out
